@@ -19,6 +19,7 @@
 #include <atomic>
 #include <chrono>
 #include <cmath>
+#include <boost/math/constants/constants.hpp>
 #include <cstdlib>
 #include <condition_variable>
 #include <deque>
@@ -36,8 +37,11 @@
 #include <vector>
 // RNG::generator_ is needed to replay the direct sampler's private draws with a twin generator
 #define private public
+#define protected public
 #include <ompl/util/RandomNumbers.h>
+#include <ompl/base/StateSampler.h>
 #undef private
+#undef protected
 #include <ompl/base/State.h>
 #include <ompl/base/StateSpace.h>
 #include <ompl/base/StateSampler.h>
@@ -725,7 +729,7 @@ int main()
             {
                 std::cout << "nball ~m=" << bits(ompl::nBallMeasure(*vp::parseNat(t[1]), *vp::parseBits(t[2]))) << "\n";
             }
-            else if ((op == "supp" || op == "sup" || op == "sup3") && w.direct && w.skind == "direct" && w.kind == "rv" &&
+            else if ((op == "supp" || op == "sup" || op == "sup3") && w.direct && w.skind == "direct" &&
                      t.size() >= (op == "sup3" ? 4u : 3u) && vp::parseNat(t[1]))
             {
                 // PHS-sampling branch with replayed private draws.  supp <seed> <c>: print the draw stream (harness only);
@@ -764,14 +768,33 @@ int main()
                     stream.push_back(u);
                     stream.push_back(r2);
                 }
+                // compound spaces: the rotation comes from uninformedSubSampler_'s OWN generator (seed + 1), one draw per KEPT
+                // iteration (createFullState): SO2 -> uniformReal(-pi, pi), SO3 -> quaternion()
+                const size_t rdim = w.kind == "se2" ? 1 : (w.kind == "se3" ? 4 : 0);
+                std::vector<double> rots;
+                if (rdim)
+                {
+                    ompl::RNG rtwin(seed + 1);
+                    for (unsigned it = 0; it < lim; ++it)
+                    {
+                        if (rdim == 1)
+                            rots.push_back(rtwin.uniformReal(-boost::math::constants::pi<double>(), boost::math::constants::pi<double>()));
+                        else
+                        {
+                            double q[4];
+                            rtwin.quaternion(q);
+                            rots.insert(rots.end(), q, q + 4);
+                        }
+                    }
+                }
                 if (op == "supp")
                 {
-                    std::cout << "supp k=" << k << " draws=" << vecBits(stream) << "\n";
+                    std::cout << "supp k=" << k << " draws=" << vecBits(stream) << " rots=" << (rdim ? vecBits(rots) : std::string("-")) << "\n";
                     continue;
                 }
                 size_t i = ci + 1;
-                std::vector<double> given;
-                if (!takeVec(t, i, stream.size(), given) || i != t.size())
+                std::vector<double> given, grots;
+                if (!takeVec(t, i, stream.size(), given) || !takeVec(t, i, rots.size(), grots) || i != t.size())
                 {
                     std::cout << "bad-op\n";
                     continue;
@@ -780,6 +803,11 @@ int main()
                 for (size_t a = 0; a < stream.size(); ++a)
                     if (bits(given[a]) != bits(stream[a]))
                         same = false;
+                for (size_t a = 0; a < rots.size(); ++a)
+                    if (bits(grots[a]) != bits(rots[a]))
+                        same = false;
+                if (rdim)
+                    w.direct->uninformedSubSampler_->rng_.setLocalSeed(seed + 1);
                 if (!same)
                 {
                     std::cout << op << " draws-mismatch\n";
@@ -805,7 +833,30 @@ int main()
                     if (k > 1)
                         twin2.uniform01();
                 }
-                std::cout << op << " found=" << found << " used=" << used << " ~x=" << (found ? vecBits(allReals(w, w.st)) : std::string("-"))
+                // how many rotation draws (= kept iterations) did it make?
+                long kept = 0;
+                if (rdim)
+                {
+                    kept = -1;
+                    ompl::RNG rtwin2(seed + 1);
+                    for (unsigned it = 0; it <= lim; ++it)
+                    {
+                        if (rtwin2.generator_ == w.direct->uninformedSubSampler_->rng_.generator_)
+                        {
+                            kept = it;
+                            break;
+                        }
+                        if (rdim == 1)
+                            rtwin2.uniformReal(-1.0, 1.0);
+                        else
+                        {
+                            double q[4];
+                            rtwin2.quaternion(q);
+                        }
+                    }
+                }
+                std::cout << op << " found=" << found << " used=" << used << " kept=" << kept << " ~x="
+                          << (found ? vecBits(allReals(w, w.st)) : std::string("-"))
                           << " inb=" << (found ? (w.space->satisfiesBounds(w.st) ? "1" : "0") : "-") << "\n";
             }
             else if (op == "iss" && w.smp && w.kind == "rv" && (w.skind == "direct" || w.skind == "rej") && t.size() == 2)
@@ -881,6 +932,83 @@ int main()
                 else
                     std::cout << "osu found=" << found << " used=" << g_script.used << " x="
                               << (found ? vecBits(allReals(w, w.st)) : std::string("-")) << " q=" << w.ord->orderedSamples_.size() << "\n";
+            }
+            else if ((op == "uprobe" || op == "usurf" || op == "uball") && t.size() >= 3 && vp::parseNat(t[1]) &&
+                     *vp::parseNat(t[1]) < w.phs.size() && vp::parseNat(t[2]) && *vp::parseNat(t[2]) > 0)
+            {
+                // RNG::uniformProlateHyperspheroidSurface / uniformProlateHyperspheroid with replayed draws (twin generator):
+                // uprobe k seed -> the raw draws; usurf k seed dir… / uball k seed dir… u -> the real call's output
+                auto &e = w.phs[*vp::parseNat(t[1])];
+                unsigned seed = *vp::parseNat(t[2]);
+                size_t n = e.f1.size();
+                ompl::RNG twin(seed);
+                std::vector<double> dsurf(n), dball(n);
+                twin.uniformNormalVector(dsurf);
+                ompl::RNG twinb(seed);
+                twinb.uniformNormalVector(dball);
+                double u = twinb.uniformReal(0.0, 1.0);
+                if (op == "uprobe")
+                {
+                    std::cout << "uprobe dir=" << vecBits(dsurf) << " u=" << bits(u) << "\n";
+                    continue;
+                }
+                size_t i = 3;
+                std::vector<double> gd, gu;
+                if (!takeVec(t, i, n, gd) || (op == "uball" && !takeVec(t, i, 1, gu)) || i != t.size())
+                {
+                    std::cout << "bad-op\n";
+                    continue;
+                }
+                bool same = true;
+                for (size_t a = 0; a < n; ++a)
+                    if (bits(gd[a]) != bits(dsurf[a]))
+                        same = false;
+                if (op == "uball" && bits(gu[0]) != bits(u))
+                    same = false;
+                if (!same)
+                {
+                    std::cout << op << " draws-mismatch\n";
+                    continue;
+                }
+                std::vector<double> x(n);
+                try
+                {
+                    w.rng.setLocalSeed(seed);
+                    if (op == "usurf")
+                        w.rng.uniformProlateHyperspheroidSurface(e.p, x.data());
+                    else
+                        w.rng.uniformProlateHyperspheroid(e.p, x.data());
+                    // did the call consume exactly this call's draws?
+                    ompl::RNG after(seed);
+                    std::vector<double> v(n);
+                    after.uniformNormalVector(v);
+                    if (op == "uball")
+                        after.uniformReal(0.0, 1.0);
+                    bool exact = after.generator_ == w.rng.generator_;
+                    double pl = e.p->getPathLength(x.data());
+                    std::cout << op << " consumed=" << exact << " ~x=" << vecBits(x) << " ~pl=" << bits(pl) << " in=" << e.p->isInPhs(x.data()) << "\n";
+                }
+                catch (ompl::Exception &)
+                {
+                    std::cout << op << " throw\n";
+                }
+            }
+            else if (op == "addstart" && w.pdef && w.space && t.size() >= 2)
+            {
+                // history: a start state added to the problem definition AFTER the sampler was constructed
+                size_t i = 1;
+                std::vector<double> x;
+                if (!takeVec(t, i, w.n, x) || i != t.size())
+                {
+                    std::cout << "bad-op\n";
+                    continue;
+                }
+                ob::State *sx = w.space->allocState();
+                setInformed(w, sx, x);
+                w.pdef->addStartState(sx);
+                w.space->freeState(sx);
+                w.starts.push_back(x);
+                std::cout << "addstart ok n=" << w.pdef->getStartStateCount() << "\n";
             }
             else if ((op == "bulk" || op == "bulk3") && w.smp && t.size() == (op == "bulk" ? 3u : 4u) &&
                      vp::parseNat(t.back()))
